@@ -11,23 +11,25 @@ static mcx::Report R;
 
 static inline size_t IDX(bool yaxis, unsigned n, unsigned row, unsigned pos) { return yaxis ? (size_t)row * n + pos : (size_t)pos * n + row; }
 
-static void part_whole(const std::vector<unsigned>& ns) {
-    for (unsigned n : ns) for (unsigned it = 1; it <= 4; it++) for (int yaxis = 0; yaxis < 2; yaxis++) for (int mode = 0; mode < 2; mode++)
+static void part_whole(const std::vector<unsigned>& ns, const std::vector<unsigned>& nbs) {
+    for (unsigned n : ns) for (unsigned nb : nbs) for (unsigned it = 1; it <= 4; it++) for (int yaxis = 0; yaxis < 2; yaxis++) for (int mode = 0; mode < 2; mode++)
     for (int k = -(int)(n - 1); k <= (int)(n - 1); k++) {
-        std::string kase = mcx::Desc()("part", "whole")("n", n)("it", it)("axis", yaxis ? "y" : "x")("mode", mode ? "mixed" : "uniform")("k", k).str();
+        std::string kase = mcx::Desc()("part", "whole")("n", n)("nb", nb)("it", it)("axis", yaxis ? "y" : "x")("mode", mode ? "mixed" : "uniform")("k", k).str();
         if (!R.mine(kase)) continue;
         if (R.out_of_time()) { R.not_completed = kase; return; }
-        set_size(n, 1);
-        std::vector<float> d((size_t)n * n);
-        for (size_t i = 0; i < d.size(); i++) d[i] = 1.0f + 0.001f * (float)((i * 7919u) % 1009u) + (i % 3 == 0 ? 0.5f : 0.f);   // positive, irregular
-        auto in = mkps_shift(n, 12, 0, 0, {1.f}, d.data()), out = mkps_shift(n, 12, 0, 0, {1.f});
+        set_size(n, nb);
+        std::vector<float> dall((size_t)n * n * nb);
+        for (size_t i = 0; i < dall.size(); i++) dall[i] = 1.0f + 0.001f * (float)((i * 7919u) % 1009u) + (i % 3 == 0 ? 0.5f : 0.f);   // positive, irregular, different in every bunch
+        auto in = mkps_shift(n, 12, 0, 0, even_filling(nb), dall.data()), out = mkps_shift(n, 12, 0, 0, even_filling(nb));
         KickMap km(in, out, (SourceMap::InterpolationType)it, false, yaxis ? KickMap::Axis::y : KickMap::Axis::x, nullptr);
-        // uniform: every row displaced by k; mixed: row r displaced by k, k-1, k+1, ... (all whole, clipped to the same range)
-        std::vector<float> off(n); std::vector<int> kr(n);
-        for (unsigned r = 0; r < n; r++) { int kk = mode ? k + (int)(r % 3) - 1 : k; kk = std::max(-(int)(n - 1), std::min((int)n - 1, kk)); kr[r] = kk; off[r] = (float)kk; }
+        // uniform: every row displaced by k; mixed: row r displaced by k, k-1, k+1, ... (all whole, clipped to the same range);
+        // y-kicks carry one field per bunch (bunch b: displaced by one cell less per bunch), x-kicks share the field of bunch 0
+        std::vector<float> off((size_t)n * nb); std::vector<int> krall((size_t)n * nb);
+        for (unsigned b = 0; b < nb; b++) for (unsigned r = 0; r < n; r++) { int kk = (mode ? k + (int)(r % 3) - 1 : k) - (yaxis ? (int)b : 0); kk = std::max(-(int)(n - 1), std::min((int)n - 1, kk)); krall[b * n + r] = kk; off[b * n + r] = (float)kk; }
         km.swapOffset(off); km.apply();
-        const float* o = out->getData();
-        R.eval(kase, mcx::fnv(o, 4 * (size_t)n * n, mcx::fnvs(kase)), k == 0 && !mode);
+        R.eval(kase, mcx::fnv(out->getData(), 4 * (size_t)n * n * nb, mcx::fnvs(kase)), k == 0 && !mode);
+        for (unsigned b = 0; b < nb; b++) {
+        const float* o = out->getData() + (size_t)b * n * n; const float* d = dall.data() + (size_t)b * n * n; const int* kr = krall.data() + (size_t)b * n;
         for (unsigned r = 0; r < n; r++) {
             size_t bad = 0; std::string first;
             for (unsigned x = 0; x < n; x++) {
@@ -40,11 +42,12 @@ static void part_whole(const std::vector<unsigned>& ns) {
             if (bad) {
                 // whole shifts beyond the half grid are outside what the offset table can encode: reported under their own key
                 const int kk = kr[r]; const char* cls = (kk >= (int)(n / 2)) ? "k>=n/2" : (kk < -(int)(n / 2)) ? "k<-n/2" : "representable";
-                R.violate(std::string("C02/KickMap/whole-shift/") + cls, kase, first + " (" + std::to_string(bad) + " cells)");
+                R.violate(std::string("C02/KickMap/whole-shift/") + cls, kase, (nb > 1 ? "bunch " + std::to_string(b) + " " : std::string()) + first + " (" + std::to_string(bad) + " cells)");
             }
         }
+        }
     }
-    R.bound_done("whole: n x it x axis x {uniform, mixed rows} x every whole displacement in [-(n-1), n-1], bitwise");
+    R.bound_done("whole: n x bunches x it x axis x {uniform, mixed rows} x every whole displacement in [-(n-1), n-1], bitwise");
 }
 
 static void part_poly(const std::vector<unsigned>& ns, int lattice) {
@@ -130,7 +133,7 @@ int main(int argc, char** argv) {
     R.rule = "one evaluation = one application of the real KickMap/RotationMap; distinct = FNV of case + output grid; trivial = zero displacement / angle 0 on constant data";
     R.sample_every = 3000;
     const bool T = R.thorough();
-    part_whole(T ? std::vector<unsigned>{8, 9, 16, 17, 32, 33} : std::vector<unsigned>{8, 9});
+    part_whole(T ? std::vector<unsigned>{8, 9, 16, 17, 32, 33} : std::vector<unsigned>{8, 9}, T ? std::vector<unsigned>{1, 2, 3} : std::vector<unsigned>{1, 2});
     part_poly(T ? std::vector<unsigned>{12, 13, 16, 33} : std::vector<unsigned>{12, 13}, T ? 256 : 16);
     part_rot(T ? std::vector<unsigned>{12, 13, 16} : std::vector<unsigned>{12, 13}, T ? std::vector<float>{0.f, 0.05f, -0.1f, 0.2617994f, 0.7853982f, 1.5707964f} : std::vector<float>{0.f, 0.1f, -0.2617994f});
     return R.finish();
